@@ -103,8 +103,8 @@ Proof.
     split.
     - unfold sp_wf in W. destruct (s_state s) eqn:Es; auto.
       + rewrite W in K. unfold pol_kind in K. destruct (p_time pol); cbn [kind_size] in K;
-          (destruct (Z.leb_spec (p_size pol) 0); [exact I | lia]).
-      + rewrite W in K. cbn [kind_size] in K. destruct (Z.leb_spec (p_perm pol) 0); [exact I | lia].
+          (destruct (Z.leb_spec (p_size pol) 0); [reflexivity | lia]).
+      + rewrite W in K. cbn [kind_size] in K. destruct (Z.leb_spec (p_perm pol) 0); [reflexivity | lia].
     - intros err dur _. fin. }
   rewrite rec_current in E by exact K. injection E as <- <-.
   unfold sp_wf in W.
@@ -148,8 +148,8 @@ Proof.
         fin.
   - (* open: the contract is silent, the state stays open *)
     assert (X : forall (c : bool) (x : spec), (if c then x else x) = x) by (intros [] ?; reflexivity).
-    rewrite X. split; [exact I|]. intros err dur Hr.
-    cbn [s_state s_id sp_set_log]. rewrite Es, Z.eqb_refl. cbn [st_eqb negb orb].
+    rewrite X. cbn [s_state s_id sp_set_log]. rewrite Es, Z.eqb_refl. cbn [st_eqb andb negb orb].
+    split; [reflexivity|]. intros err dur Hr.
     fin.
 Qed.
 
